@@ -12,8 +12,12 @@ vars == <<ds, opt, X, heap, fcache, rcache, nid, returned, last, hist>>
 
 \* the request menu: single and multiple fields, every input, whole-array / pooled / sliced
 MenuFields == {<<"obs">>, <<"fcst">>, <<"obs", "fcst">>}
-Menu == {[fields |-> f, inp |-> i, axis |-> a[1], idx |-> a[2]] :
-           f \in MenuFields, i \in 1..X.n, a \in {<<"all", 1>>, <<"no", 1>>, <<"time", 1>>, <<"time", 2>>, <<"location", 1>>, <<"location", 2>>}}
+\* MaxLen >= 99 means "no bound on the length of the history" (configurations *_Unbounded, explored under VIEW CanonicalView): the menu
+\* is then the core of 12 requests (every field set, every input, the whole array and one slice) so that the 2^12 cache contents stay enumerable
+Unbounded == MaxLen >= 99
+ReqAxes == IF Unbounded THEN {<<"all", 1>>, <<"time", 1>>}
+            ELSE {<<"all", 1>>, <<"no", 1>>, <<"time", 1>>, <<"time", 2>>, <<"location", 1>>, <<"location", 2>>}
+Menu == {[fields |-> f, inp |-> i, axis |-> a[1], idx |-> a[2]] : f \in MenuFields, i \in 1..X.n, a \in ReqAxes}
 MenuOk(r) == r.axis = "all" \/ r.idx <= NumSlices(X, r.axis)
 
 Usable(g) == LET D == DsOf(g) IN ~EmptySelection(D, g.opt) /\ SomeObs(D)
@@ -32,12 +36,38 @@ EmitBehaviour(h) ==
                                               e |-> LET ea == ExpectedArrays(X, h[q]) IN [k \in DOMAIN ea |-> ArrJ(ea[k])]]]]))
 
 \* (without EmitLeaves the history is not recorded, so that behaviours reaching the same caches merge)
-Step == /\ TLCGet("level") <= MaxLen
+Step == /\ (Unbounded \/ TLCGet("level") <= MaxLen)
         /\ \E r \in {q \in Menu : MenuOk(q)} :
               /\ Request(r)
               /\ hist' = IF EmitLeaves THEN Append(hist, r) ELSE hist
               /\ (EmitLeaves /\ Len(hist') = MaxLen) => EmitBehaviour(hist')
 Next == Step
 Spec == Init /\ [][Next]_vars
+
+\* ---- histories of ANY length -------------------------------------------------------------------------------------------
+\* Object ids are names: two states that agree on the contents of the cached field arrays, on which of them are shared between
+\* inputs, on the contents of every cached result and on which results ARE cached field arrays, behave alike for ever after.
+\* Under this view the state graph is finite (at most 2^|Menu| cache contents per dataset), so TLC visits every reachable cache
+\* state whatever the length and order of the history that leads to it.  `returned` (a history variable) is not part of the
+\* view; its invariant is replaced by the action property HandedOutStable below, which speaks about the cached results only.
+FieldArr(j, f) == IF fcache[j][f] = 0 THEN <<>> ELSE heap[fcache[j][f]]
+CanonicalView ==
+  <<ds, opt,
+    [j \in 1..NA |-> [f \in Fields |-> FieldArr(j, f)]],
+    {<<j1, j2, f>> \in (1..NA) \X (1..NA) \X Fields : fcache[j1][f] # 0 /\ fcache[j1][f] = fcache[j2][f]},
+    {<<r, [k \in DOMAIN rcache[r] |-> heap[rcache[r][k]]],
+          [k \in DOMAIN rcache[r] |-> {<<j, f>> \in (1..NA) \X Fields : fcache[j][f] = rcache[r][k]}]>> : r \in DOMAIN rcache},
+    last.req, last.hit, [k \in DOMAIN last.ids |-> heap[last.ids[k]]]>>
+\* The same without the most recent call: what a call returns is the cache entry of its request (LastIsCached, on every transition),
+\* so CacheCoherent already says that every call of every history returns what Dataset.tla prescribes.
+CacheView ==
+  <<ds, opt,
+    [j \in 1..NA |-> [f \in Fields |-> FieldArr(j, f)]],
+    {<<j1, j2, f>> \in (1..NA) \X (1..NA) \X Fields : fcache[j1][f] # 0 /\ fcache[j1][f] = fcache[j2][f]},
+    {<<r, [k \in DOMAIN rcache[r] |-> heap[rcache[r][k]]],
+          [k \in DOMAIN rcache[r] |-> {<<j, f>> \in (1..NA) \X Fields : fcache[j][f] = rcache[r][k]}]>> : r \in DOMAIN rcache}>>
+LastIsCached == [][last'.req \in DOMAIN rcache' /\ last'.ids = rcache'[last'.req]]_vars
+\* every array ever handed out is a cached result (a miss caches what it returns, a hit returns what is cached): none of them changes
+HandedOutStable == [][\A r \in DOMAIN rcache : \A k \in DOMAIN rcache[r] : heap'[rcache[r][k]] = heap[rcache[r][k]]]_vars
 
 =============================================================================
